@@ -144,16 +144,20 @@ impl Parser {
                                 break;
                             }
 
-                            if let Ok(Some(field)) = self.parse_expr() {
-                                fields.push(field);
+                            match self.parse_expr() {
+                                Ok(Some(field)) => fields.push(field),
+                                Ok(None) => break,
+                                Err(err) => return Err(err),
                             }
                         }
                     }
                 }
                 Some(Lexem::Open) | Some(Lexem::CurlyOpen) => {
                     self.drop_lexem();
-                    if let Ok(Some(field)) = self.parse_expr() {
-                        fields.push(field);
+                    match self.parse_expr() {
+                        Ok(Some(field)) => fields.push(field),
+                        Ok(None) => break,
+                        Err(err) => return Err(err),
                     }
                 }
                 _ => {
